@@ -400,8 +400,12 @@ func (g *TypeGen) Struct(depth int) reflect.Type {
 			}
 		}
 		st := `plenc:"` + tag + `"`
-		if g.r.Chance(20) {
-			st += fmt.Sprintf(` json:"j%d,omitempty"`, i)
+		if g.r.Chance(25) {
+			// every shape of json tag: a name, a name with options, no name, and "-" in its three spellings
+			st += []string{
+				fmt.Sprintf(` json:"j%d,omitempty"`, i), fmt.Sprintf(` json:"j%d"`, i), fmt.Sprintf(` json:"n%d,string"`, i),
+				` json:",omitempty"`, ` json:"-"`, ` json:"-,"`, ` json:"-,omitempty"`, ` json:""`,
+			}[g.r.Intn(8)]
 		}
 		fields = append(fields, reflect.StructField{Name: fmt.Sprintf("F%d", i), Type: ft, Tag: reflect.StructTag(st)})
 	}
